@@ -253,7 +253,7 @@ def run(tier, seed):
                 ('long-strings', 1, A),
                 ('three-threads', 1, A), ('three-threads-mixed', 1, V)]
     else:
-        plan = [('name-vs-subclass', 2, A), ('name-vs-subclass', 3, V),
+        plan = [('name-vs-subclass', 2, A),
                 ('name-vs-same', 2, A), ('name-vs-same', 3, V),
                 ('name-twice-vs-subclass', 2, A),
                 ('name-vs-subclass', 2, O), ('name-vs-same', 2, O), ('stdlib-lazy', 1, O),
